@@ -1,0 +1,39 @@
+//! Verification hooks. Compiled only with `--cfg suiron_verif`.
+//!
+//! The functions of time_out.rs call emit() just before each access to the
+//! global stop flag. A verification harness installs a callback with
+//! set_hook() and turns each event into a scheduling point of its
+//! controlled scheduler. Without a callback, emit() does nothing.
+
+use std::sync::atomic::{AtomicUsize, Ordering};
+
+/// An access to the global query state (QUERY_EPOCH, SUIRON_STOP_QUERY).
+#[derive(Debug, Clone, Copy, PartialEq)]
+pub enum Event {
+    /// start_query_timer() is about to start a new epoch.
+    TimerStart,
+    /// The timer's callback is about to record a stop request.
+    TimerFire,
+    /// start_query() is about to start a new epoch.
+    StartQuery,
+    /// stop_query() is about to record a stop request.
+    StopQuery,
+    /// query_stopped() is about to read the flag.
+    QueryStopped,
+}
+
+static HOOK: AtomicUsize = AtomicUsize::new(0);
+
+/// Installs the callback.
+pub fn set_hook(f: fn(Event)) {
+    HOOK.store(f as usize, Ordering::SeqCst);
+}
+
+/// Reports an event to the callback, if there is one.
+pub fn emit(event: Event) {
+    let p = HOOK.load(Ordering::SeqCst);
+    if p != 0 {
+        let f: fn(Event) = unsafe { std::mem::transmute(p) };
+        f(event);
+    }
+}
